@@ -726,7 +726,8 @@ theorem zipIdx_map_fst' {α β : Type} (l : List α) (f : α → β) : (l.zipIdx
   rw [this, List.zipIdx_map_fst]
 
 /-- **the RDKit bridge is lossless** (the property clause, for the model).  For every well-formed
-    simple undirected graph `g` whose nodes all carry a symbol, none of them a labelled placeholder,
+    simple undirected graph `g` without self-loops (`noSelfLoops`: RDKit refuses a bond from an atom to
+    itself, which the RWMol model does not reproduce — such graphs are outside the domain) whose nodes all carry a symbol, none of them a labelled placeholder,
     and whose bonds all have a supported order (1, 1.5, 2, 3, 4), the round trip
     `mol_to_graph(graph_to_mol(g, ignore_aam))` returns a simple graph `o` with
     * the same atoms in the same order: ids `0 … n-1`, the `i`-th atom of `o` is the `i`-th atom
@@ -740,6 +741,7 @@ theorem zipIdx_map_fst' {α β : Type} (l : List α) (f : α → β) : (l.zipIdx
     * and `BridgeSpec` (the same statement on the adjacency entries, applied by the driver to
       every implementation output). -/
 theorem bridge_lossless (ia : Bool) (g : Graph) (hwf : C11.wellFormed g = true) (hsi : C11.simple g = true)
+    (hnl : noSelfLoops g = true)
     (hsym : allSymbols g = true) (hlab : noLabelNodes g = true) (hsup : supported g = true) :
     ∃ o, bridge ia g = .ok o ∧
       o.multi = false ∧ o.adj.map (·.1) = o.nodeIds ∧
@@ -757,7 +759,9 @@ theorem bridge_lossless (ia : Bool) (g : Graph) (hwf : C11.wellFormed g = true) 
       (∀ a b l, o.bond? a b = some l → supportedLabel l = true ∧
         ∃ u ∈ g.nodeIds, ∃ v ∈ g.nodeIds,
           a = (idxOf g.nodeIds u : Int) ∧ b = (idxOf g.nodeIds v : Int) ∧ g.bond? u v = some l) ∧
-      BridgeSpec ia g o := by
+      BridgeSpec ia g o ∧
+      -- no atom is bonded to itself (as in the input: `noSelfLoops g`)
+      (∀ a, o.bond? a a = none) := by
   have hw := C11.wf_of_wellFormed g hwf
   have hs := C11.simple_of_simple g hw hsi
   have hc := edgesClosed_of_wf g hw hs
@@ -779,7 +783,7 @@ theorem bridge_lossless (ia : Bool) (g : Graph) (hwf : C11.wellFormed g = true) 
     obtain ⟨hu, hv⟩ := Graph.hasEntry_nodes g hw hent
     exact ⟨u, hu, v, hv, rfl, rfl, Graph.bond?_of_hasEntry g htg hent⟩
   refine ⟨normalise ia g, bridge_roundtrip ia g hsym hlab hsup, hspec.simple, hspec.rows, ?_,
-    fun i h => idxOf_getElem hw.nodup i h, ?_, ?_, ?_, ?_, ?_, hspec⟩
+    fun i h => idxOf_getElem hw.nodup i h, ?_, ?_, ?_, ?_, ?_, hspec, ?_⟩
   · rw [Graph.nodeIds, hnodes, normNodes_ids, List.range_eq_range']
   · rw [hnodes]; unfold normNodes
     rw [List.map_map]
@@ -821,6 +825,16 @@ theorem bridge_lossless (ia : Bool) (g : Graph) (hwf : C11.wellFormed g = true) 
     have := (List.all_eq_true.1 hsup) e he
     rw [hl] at this
     exact this
+  · intro a
+    cases ho : (normalise ia g).bond? a a with
+    | none => rfl
+    | some l =>
+      obtain ⟨u, hu, v, hv, h1, h2, hb⟩ := hback a a l ho
+      have e := idxOf_inj hu hv (by omega)
+      subst e
+      have := (List.all_eq_true.1 hnl) u hu
+      rw [hb] at this
+      simp at this
 
 
 /-! ### non-vacuity (tests) -/
@@ -881,8 +895,8 @@ example : ∃ o, bridge false exH = .ok o ∧ o.bond? 1 2 = some (.s 8) ∧ o.bo
     o.nodes.map (·.2.aam) = [some 3, some 1, none, some 2, none] ∧
     o.nodes.map (·.2.symbol) = [some "C", some "C", some "N", some "O", some "Cl"] ∧
     o.nodeIds = [0, 1, 2, 3, 4] := by
-  obtain ⟨o, hb, -, -, hids, -, hsy, -, haam, hbond, -, -⟩ :=
-    bridge_lossless false exH (by decide) (by decide) (by decide) (by decide) (by decide)
+  obtain ⟨o, hb, -, -, hids, -, hsy, -, haam, hbond, -, -, -⟩ :=
+    bridge_lossless false exH (by decide) (by decide) (by decide) (by decide) (by decide) (by decide)
   refine ⟨o, hb, ?_, ?_, ?_, ?_, ?_, ?_⟩
   · exact hbond 4 (by decide) 9 (by decide)
   · exact hbond 4 (by decide) 12 (by decide)
